@@ -488,6 +488,29 @@ static bool has_flonum2(Type *ty) {
   return has_flonum(ty, 8, 16, 0);
 }
 
+// True if some scalar in `ty`, placed at `offset`, is not aligned to
+// its natural alignment (a member of a packed struct).
+static bool has_unaligned_field(Type *ty, int offset) {
+  if (ty->kind == TY_STRUCT || ty->kind == TY_UNION) {
+    for (Member *mem = ty->members; mem; mem = mem->next)
+      if (!mem->is_bitfield && has_unaligned_field(mem->ty, offset + mem->offset))
+        return true;
+    return false;
+  }
+
+  if (ty->kind == TY_ARRAY)
+    return ty->array_len > 0 && has_unaligned_field(ty->base, offset);
+
+  return ty->size > 0 && offset % ty->size != 0;
+}
+
+// The psABI gives class MEMORY to an aggregate that is larger than two
+// eightbytes or that contains unaligned fields: it is passed on the
+// stack and returned through a buffer provided by the caller.
+bool pass_in_memory(Type *ty) {
+  return ty->size > 16 || has_unaligned_field(ty, 0);
+}
+
 static void push_struct(Type *ty) {
   int sz = align_to(ty->size, 8);
   println("  sub $%d, %%rsp", sz);
@@ -569,7 +592,7 @@ static int push_args(Node *node) {
 
   // If the return type is a large struct/union, the caller passes
   // a pointer to a buffer as if it were the first argument.
-  if (node->ret_buffer && node->ty->size > 16)
+  if (node->ret_buffer && pass_in_memory(node->ty))
     gp++;
 
   // Load as many arguments to the registers as possible.
@@ -579,7 +602,7 @@ static int push_args(Node *node) {
     switch (ty->kind) {
     case TY_STRUCT:
     case TY_UNION:
-      if (ty->size > 16) {
+      if (pass_in_memory(ty)) {
         arg->pass_by_stack = true;
         stack = stack_arg_slots(arg, stack);
       } else {
@@ -631,7 +654,7 @@ static int push_args(Node *node) {
 
   // If the return type is a large struct/union, the caller passes
   // a pointer to a buffer as if it were the first argument.
-  if (node->ret_buffer && node->ty->size > 16) {
+  if (node->ret_buffer && pass_in_memory(node->ty)) {
     println("  lea %d(%%rbp), %%rax", node->ret_buffer->offset);
     push();
   }
@@ -982,7 +1005,7 @@ static void gen_expr(Node *node) {
 
     // If the return type is a large struct/union, the caller passes
     // a pointer to a buffer as if it were the first argument.
-    if (node->ret_buffer && node->ty->size > 16)
+    if (node->ret_buffer && pass_in_memory(node->ty))
       pop(argreg64[gp++]);
 
     for (Node *arg = node->args; arg; arg = arg->next) {
@@ -993,7 +1016,7 @@ static void gen_expr(Node *node) {
       switch (ty->kind) {
       case TY_STRUCT:
       case TY_UNION:
-        if (ty->size > 16)
+        if (pass_in_memory(ty))
           continue;
 
         bool fp1 = has_flonum1(ty);
@@ -1054,7 +1077,7 @@ static void gen_expr(Node *node) {
 
     // If the return type is a small struct, a value is returned
     // using up to two registers.
-    if (node->ret_buffer && node->ty->size <= 16) {
+    if (node->ret_buffer && !pass_in_memory(node->ty)) {
       copy_ret_buffer(node->ret_buffer);
       println("  lea %d(%%rbp), %%rax", node->ret_buffer->offset);
     }
@@ -1427,7 +1450,7 @@ static void gen_stmt(Node *node) {
       switch (ty->kind) {
       case TY_STRUCT:
       case TY_UNION:
-        if (ty->size <= 16)
+        if (!pass_in_memory(ty))
           copy_struct_reg();
         else
           copy_struct_mem();
@@ -1470,7 +1493,7 @@ static void assign_lvar_offsets(Obj *prog) {
       switch (ty->kind) {
       case TY_STRUCT:
       case TY_UNION:
-        if (ty->size <= 16) {
+        if (!pass_in_memory(ty)) {
           bool two = ty->size > 8;
           bool fp1 = has_flonum(ty, 0, 8, 0);
           bool fp2 = two && has_flonum(ty, 8, 16, 0);
@@ -1695,7 +1718,7 @@ static void emit_text(Obj *prog) {
       switch (ty->kind) {
       case TY_STRUCT:
       case TY_UNION:
-        assert(ty->size <= 16);
+        assert(!pass_in_memory(ty));
         if (has_flonum(ty, 0, 8, 0))
           store_fp(fp++, var->offset, MIN(8, ty->size));
         else
